@@ -1686,10 +1686,11 @@ impl Linearizer {
             .map(normalized_for_bounds)
             .collect::<Vec<_>>();
         let bounds = BoundsAnalyzer::analyze(&domain, &normalized_constraints);
+        let empty_integer_range = bounds.has_integer_range_without_integer(&domain);
         bounds.apply_to_domain(&mut domain);
         let mut context = Linearizer::new_from_with_bounds(constraints, domain, bounds);
         context.enforce_derived_boolean_bounds()?;
-        if context.bounds.has_unsatisfiable_range() {
+        if context.bounds.has_unsatisfiable_range() || empty_integer_range {
             // lowering rules prune with the derived ranges, a range no value
             // satisfies is not publishable as a domain, so the infeasibility it
             // proves is stated by a row
